@@ -267,20 +267,10 @@ Proof. intros [->|H]; [reflexivity|apply lines_app; exact H]. Qed.
 
 (* ---------- the validation part of the cut ---------- *)
 Definition validate (n : nat) (hdr : Z) (plus : bool) (kept data : list Z) (size m : nat) : cutres :=
-  if negb (nthZ data 0 =? hdr)%Z then CutFormat 0
-  else
-    let hidx := map (fun p => (p + 1)%Z) (strided kept (n - 1) n (m - 1) 0) in
-    match find_first_bad (fun p => (nthZ data p =? hdr)%Z) hidx 0 with
-    | Some i => CutFormat ((i + 1) * n)
-    | None =>
-        if plus then
-          let pidx := map (fun p => (p + 1)%Z) (strided kept 1 n m 0) in
-          match find_first_bad (fun p => (nthZ data p =? 43)%Z) pidx 0 with
-          | Some j => CutFormat (2 + j * n)
-          | None => CutOk size m
-          end
-        else CutOk size m
-    end.
+  match m_first_fail (m_plus_fail n plus kept data m) (m_header_fail n hdr kept data m) with
+  | Some l => CutFormat l
+  | None => CutOk size m
+  end.
 
 Lemma cut_unfold n hdr plus chunk :
   cut (OneLine n hdr plus) chunk =
@@ -323,6 +313,25 @@ Proof. intros Hv H. destruct l; [cbn in H; congruence|exact H]. Qed.
 Lemma first_byte_neq l v : v <> 0%Z -> first_byte l <> v -> nthZ l 0 <> v.
 Proof. intros Hv H. destruct l; [cbn; congruence|exact H]. Qed.
 
+(* the two components of line_bad *)
+Definition hbad (n : nat) (hdr : Z) (i : nat) (l : list Z) : bool := (i mod n =? 0) && negb (nthZ l 0 =? hdr)%Z.
+Definition pbad (n : nat) (plus : bool) (i : nat) (l : list Z) : bool :=
+  plus && (i mod n =? 2) && negb (nthZ l 0 =? 43)%Z.
+Lemma line_bad_split n hdr plus i l : line_bad n hdr plus i l = hbad n hdr i l || pbad n plus i l.
+Proof. reflexivity. Qed.
+
+Lemma ffb_before test xs d : forall i0 i, find_first_bad test xs i0 = Some i ->
+  forall q, q < i - i0 -> test (nth q xs d) = true.
+Proof.
+  induction xs as [|y xs IH]; intros i0 i H q Hq; [discriminate|].
+  cbn [find_first_bad] in H. destruct (test y) eqn:E.
+  - destruct q as [|q]; [exact E|]. cbn [nth]. apply (IH (S i0) i H).
+    destruct (ffb_some test xs d (S i0) i H) as (Hle & _). lia.
+  - injection H as <-. lia.
+Qed.
+Lemma ffb_none_nth test xs d i0 : find_first_bad test xs i0 = None -> forall q, q < length xs -> test (nth q xs d) = true.
+Proof. intros H q Hq. apply (ffb_none test xs i0 H). apply nth_In. exact Hq. Qed.
+
 Section Validate.
 Variables (n : nat) (hdr : Z) (plus : bool).
 Hypothesis Hn : 1 <= n.
@@ -331,94 +340,202 @@ Variable data : list Z.
 Hypothesis Hmod : count_nl data mod n = 0.
 Hypothesis Hge : n <= count_nl data.
 
+Local Notation hidx := (map (fun p => (p + 1)%Z) (strided (nl_pos data) (n - 1) n (count_nl data - 1) 0)).
+Local Notation pidx := (map (fun p => (p + 1)%Z) (strided (nl_pos data) 1 n (count_nl data) 0)).
+
+(* the q-th index checked for the marker is the first byte of line (q+1)*n *)
+Lemma hidx_nth q : n - 1 + q * n < count_nl data - 1 ->
+  q < length hidx /\ (q + 1) * n < count_nl data
+  /\ nthZ data (nth q hidx (0 + 1)%Z) = first_byte (nth ((q + 1) * n) (lines data) []).
+Proof.
+  intros Hb.
+  assert (Hb2 : n - 1 + q * n < length (nl_pos data)) by (unfold count_nl in Hb; lia).
+  destruct (strided_nth (nl_pos data) (n - 1) n (count_nl data - 1) q 0%Z Hn Hb Hb2) as [Hq1 Hq2].
+  assert (Hj : (q + 1) * n < count_nl data) by nia.
+  split; [rewrite map_length; exact Hq1|]. split; [exact Hj|].
+  rewrite (map_nth (fun p => (p + 1)%Z)). rewrite Hq2.
+  pose proof (line_start_byte _ data Hj) as HB.
+  replace ((q + 1) * n) with (S (n - 1 + q * n)) in HB at 1 by nia.
+  cbn [line_start] in HB. exact HB.
+Qed.
+Lemma hidx_bound q : q < length hidx -> n - 1 + q * n < count_nl data - 1.
+Proof. intros Hq. rewrite map_length in Hq. exact (proj1 (strided_bound _ _ _ _ _ Hn Hq)). Qed.
+
+(* the q-th index checked for '+' is the first byte of line 2 + q*n *)
+Lemma pidx_nth q : 3 <= n -> 1 + q * n < count_nl data ->
+  q < length pidx /\ 2 + q * n < count_nl data
+  /\ nthZ data (nth q pidx (0 + 1)%Z) = first_byte (nth (2 + q * n) (lines data) []).
+Proof.
+  clear Hp. intros Hn3 Hb.
+  assert (Hb2 : 1 + q * n < length (nl_pos data)) by (unfold count_nl in Hb; lia).
+  destruct (strided_nth (nl_pos data) 1 n (count_nl data) q 0%Z Hn Hb Hb2) as [Hq1 Hq2].
+  assert (Hj : 2 + q * n < count_nl data).
+  { pose proof Hmod as Hmod'. apply Nat.mod_divides in Hmod'; [|lia]. destruct Hmod' as [c Hc].
+    assert (Hic : q < c) by nia.
+    assert (Hle : n * (q + 1) <= n * c) by (apply Nat.mul_le_mono_l; lia). nia. }
+  split; [rewrite map_length; exact Hq1|]. split; [exact Hj|].
+  rewrite (map_nth (fun p => (p + 1)%Z)). rewrite Hq2.
+  pose proof (line_start_byte _ data Hj) as HB.
+  replace (2 + q * n) with (S (1 + q * n)) in HB at 1 by lia.
+  cbn [line_start] in HB. exact HB.
+Qed.
+Lemma pidx_bound q : q < length pidx -> 1 + q * n < count_nl data.
+Proof. intros Hq. rewrite map_length in Hq. exact (proj1 (strided_bound _ _ _ _ _ Hn Hq)). Qed.
+
+(* a marker line whose byte passed the test does not offend *)
+Lemma hline_ok j : hdr <> 10%Z -> (nthZ data 0 =? hdr)%Z = true -> j < count_nl data ->
+  (forall q, j = (q + 1) * n -> (nthZ data (nth q hidx (0 + 1)%Z) =? hdr)%Z = true) ->
+  hbad n hdr j (nth j (lines data) []) = false.
+Proof.
+  intros Hh E0 Hj Ht. unfold hbad.
+  destruct (j mod n =? 0) eqn:Ej; [|reflexivity]. cbn [andb]. apply Nat.eqb_eq in Ej.
+  apply negb_false_iff. apply Z.eqb_eq. apply first_byte_eq; [exact Hh|].
+  apply Nat.mod_divides in Ej; [|lia]. destruct Ej as [c Hc].
+  destruct c as [|q].
+  - assert (Hj0 : j = 0) by lia. clear Hc. subst j. rewrite <- (line_start_byte 0 data Hj). cbn [line_start].
+    apply Z.eqb_eq. exact E0.
+  - assert (Hjq : j = (q + 1) * n) by nia.
+    assert (Hb : n - 1 + q * n < count_nl data - 1) by nia.
+    destruct (hidx_nth q Hb) as (_ & _ & HB). rewrite Hjq. rewrite <- HB.
+    apply Z.eqb_eq. apply Ht. exact Hjq.
+Qed.
+Lemma pline_ok j : j < count_nl data ->
+  (forall q, j = 2 + q * n -> (nthZ data (nth q pidx (0 + 1)%Z) =? 43)%Z = true) ->
+  pbad n plus j (nth j (lines data) []) = false.
+Proof.
+  intros Hj Ht. unfold pbad.
+  destruct (Bool.bool_dec plus true) as [Epl|Epl]; [|apply not_true_is_false in Epl; rewrite Epl; reflexivity].
+  pose proof (Hp Epl) as Hn3. rewrite Epl. cbn [andb].
+  destruct (j mod n =? 2) eqn:Ej; [|reflexivity]. cbn [andb]. apply Nat.eqb_eq in Ej.
+  apply negb_false_iff. apply Z.eqb_eq. apply first_byte_eq; [lia|].
+  pose proof (Nat.div_mod j n ltac:(lia)) as Hd. rewrite Ej in Hd. set (q := j / n) in *.
+  assert (Hjq : j = 2 + q * n) by nia.
+  assert (Hb : 1 + q * n < count_nl data) by nia.
+  destruct (pidx_nth q Hn3 Hb) as (_ & _ & HB). rewrite Hjq. rewrite <- HB.
+  apply Z.eqb_eq. apply Ht. exact Hjq.
+Qed.
+
+(* the marker check *)
+Lemma hfail_none : hdr <> 10%Z -> m_header_fail n hdr (nl_pos data) data (count_nl data) = None ->
+  forall j, j < count_nl data -> hbad n hdr j (nth j (lines data) []) = false.
+Proof.
+  intros Hh H j Hj. unfold m_header_fail in H.
+  destruct (nthZ data 0 =? hdr)%Z eqn:E0; cbn [negb] in H; [|discriminate]. cbv zeta in H.
+  destruct (find_first_bad (fun p => (nthZ data p =? hdr)%Z) hidx 0) eqn:E1; [discriminate|].
+  apply (hline_ok j Hh E0 Hj). intros q Hq.
+  apply (ffb_none_nth _ _ (0 + 1)%Z 0 E1).
+  assert (Hb : n - 1 + q * n < count_nl data - 1) by nia.
+  exact (proj1 (hidx_nth q Hb)).
+Qed.
+Lemma hfail_some h : m_header_fail n hdr (nl_pos data) data (count_nl data) = Some h ->
+  h < count_nl data
+  /\ (hdr <> 0%Z -> hbad n hdr h (nth h (lines data) []) = true)
+  /\ (hdr <> 10%Z -> forall j, j < h -> hbad n hdr j (nth j (lines data) []) = false).
+Proof.
+  intros H. unfold m_header_fail in H.
+  destruct (nthZ data 0 =? hdr)%Z eqn:E0; cbn [negb] in H.
+  - cbv zeta in H.
+    destruct (find_first_bad (fun p => (nthZ data p =? hdr)%Z) hidx 0) as [i|] eqn:E1; [|discriminate].
+    injection H as <-. unfold m_header_line.
+    destruct (ffb_some _ _ (0 + 1)%Z 0 i E1) as (_ & Hi & Ht). rewrite Nat.sub_0_r in Hi, Ht.
+    pose proof (hidx_bound i Hi) as Hb.
+    destruct (hidx_nth i Hb) as (_ & Hj & HB).
+    split; [exact Hj|]. split.
+    + intros Hh. unfold hbad. rewrite Nat.mod_mul by lia. cbn [Nat.eqb andb].
+      apply negb_true_iff. apply Z.eqb_neq. apply first_byte_neq; [exact Hh|].
+      rewrite <- HB. apply Z.eqb_neq. exact Ht.
+    + intros Hh j Hlt. apply (hline_ok j Hh E0 ltac:(lia)). intros q Hq.
+      apply (ffb_before _ _ (0 + 1)%Z 0 i E1). rewrite Nat.sub_0_r. nia.
+  - injection H as <-. assert (Hj : 0 < count_nl data) by lia. split; [exact Hj|]. split.
+    + intros Hh. pose proof (line_start_byte 0 data Hj) as HB. cbn [line_start] in HB.
+      unfold hbad. rewrite Nat.mod_0_l by lia. cbn [Nat.eqb andb]. apply negb_true_iff. apply Z.eqb_neq.
+      apply first_byte_neq; [exact Hh|]. rewrite <- HB. apply Z.eqb_neq. exact E0.
+    + intros _ j Hlt. lia.
+Qed.
+
+(* the '+' check *)
+Lemma pfail_none : m_plus_fail n plus (nl_pos data) data (count_nl data) = None ->
+  forall j, j < count_nl data -> pbad n plus j (nth j (lines data) []) = false.
+Proof.
+  intros H j Hj. unfold m_plus_fail in H.
+  destruct (Bool.bool_dec plus true) as [Epl|Epl];
+    [|apply not_true_is_false in Epl; unfold pbad; rewrite Epl; reflexivity].
+  pose proof (Hp Epl) as Hn3. rewrite Epl in H. cbv zeta in H.
+  destruct (find_first_bad (fun p => (nthZ data p =? 43)%Z) pidx 0) eqn:E2; [discriminate|].
+  apply (pline_ok j Hj). intros q Hq.
+  apply (ffb_none_nth _ _ (0 + 1)%Z 0 E2).
+  assert (Hb : 1 + q * n < count_nl data) by nia.
+  exact (proj1 (pidx_nth q Hn3 Hb)).
+Qed.
+Lemma pfail_some p : m_plus_fail n plus (nl_pos data) data (count_nl data) = Some p ->
+  p < count_nl data
+  /\ pbad n plus p (nth p (lines data) []) = true
+  /\ (forall j, j < p -> pbad n plus j (nth j (lines data) []) = false).
+Proof.
+  intros H. unfold m_plus_fail in H.
+  destruct (Bool.bool_dec plus true) as [Epl|Epl]; [|apply not_true_is_false in Epl; rewrite Epl in H; discriminate].
+  pose proof (Hp Epl) as Hn3. rewrite Epl in H. cbv zeta in H.
+  destruct (find_first_bad (fun p => (nthZ data p =? 43)%Z) pidx 0) as [i|] eqn:E2; [|discriminate].
+  injection H as <-. unfold m_plus_line.
+  destruct (ffb_some _ _ (0 + 1)%Z 0 i E2) as (_ & Hi & Ht). rewrite Nat.sub_0_r in Hi, Ht.
+  pose proof (pidx_bound i Hi) as Hb.
+  destruct (pidx_nth i Hn3 Hb) as (_ & Hj & HB).
+  split; [exact Hj|]. split.
+  - assert (Hjm : forall x, x = 2 + i * n -> x mod n = 2).
+    { intros x ->. rewrite Nat.mod_add by lia. apply Nat.mod_small. lia. }
+    unfold pbad. rewrite (Hjm (2 + i * n) eq_refl). rewrite Epl. cbn [Nat.eqb andb].
+    apply negb_true_iff. apply Z.eqb_neq. apply first_byte_neq; [lia|].
+    rewrite <- HB. apply Z.eqb_neq. exact Ht.
+  - intros j Hlt. apply (pline_ok j ltac:(lia)). intros q Hq.
+    apply (ffb_before _ _ (0 + 1)%Z 0 i E2). rewrite Nat.sub_0_r. nia.
+Qed.
+
 Lemma validate_ok size size' m' : hdr <> 10%Z ->
   validate n hdr plus (nl_pos data) data size (count_nl data) = CutOk size' m' ->
   forall j, j < count_nl data -> line_bad n hdr plus j (nth j (lines data) []) = false.
 Proof.
   intros Hh H j Hj. unfold validate in H.
-  destruct (nthZ data 0 =? hdr)%Z eqn:E0; cbn [negb] in H; [|discriminate].
-  cbv zeta in H.
-  destruct (find_first_bad (fun p => (nthZ data p =? hdr)%Z) _ 0) eqn:E1; [discriminate|].
-  pose proof (line_start_byte j data Hj) as HB.
-  unfold line_bad. apply orb_false_iff. split.
-  - destruct (j mod n =? 0) eqn:Ej; [|reflexivity]. cbn [andb]. apply Nat.eqb_eq in Ej.
-    apply negb_false_iff. apply Z.eqb_eq. apply first_byte_eq; [exact Hh|].
-    rewrite <- HB. destruct j as [|j'].
-    + cbn [line_start]. apply Z.eqb_eq. exact E0.
-    + apply Nat.mod_divides in Ej; [|lia]. destruct Ej as [c Hc].
-      destruct c as [|q]; [lia|].
-      assert (Hidx : n - 1 + q * n = j') by nia.
-      destruct (strided_nth (nl_pos data) (n - 1) n (count_nl data - 1) q 0%Z Hn) as [Hq1 Hq2];
-        [rewrite Hidx; lia|rewrite Hidx; unfold count_nl in Hj; lia|].
-      rewrite Hidx in Hq2. cbn [line_start]. rewrite <- Hq2.
-      apply Z.eqb_eq. apply (ffb_none _ _ 0 E1). apply (in_map (fun p => (p + 1)%Z)). apply nth_In. exact Hq1.
-  - destruct plus eqn:Epl; [|reflexivity]. cbn [andb].
-    destruct (j mod n =? 2) eqn:Ej; [|reflexivity]. cbn [andb]. apply Nat.eqb_eq in Ej.
-    pose proof (Hp eq_refl) as Hn3.
-    destruct (find_first_bad (fun p => (nthZ data p =? 43)%Z) _ 0) eqn:E2; [discriminate|].
-    apply negb_false_iff. apply Z.eqb_eq. apply first_byte_eq; [lia|].
-    rewrite <- HB.
-    pose proof (Nat.div_mod j n ltac:(lia)) as Hd. rewrite Ej in Hd. set (q := j / n) in *.
-    destruct j as [|j']; [lia|].
-    assert (Hidx : 1 + q * n = j') by nia.
-    destruct (strided_nth (nl_pos data) 1 n (count_nl data) q 0%Z Hn) as [Hq1 Hq2];
-      [rewrite Hidx; lia|rewrite Hidx; unfold count_nl in Hj; lia|].
-    rewrite Hidx in Hq2. cbn [line_start]. rewrite <- Hq2.
-    apply Z.eqb_eq. apply (ffb_none _ _ 0 E2). apply (in_map (fun p => (p + 1)%Z)). apply nth_In. exact Hq1.
+  destruct (m_plus_fail n plus (nl_pos data) data (count_nl data)) as [p|] eqn:EP;
+    destruct (m_header_fail n hdr (nl_pos data) data (count_nl data)) as [h|] eqn:EH;
+    cbn [m_first_fail] in H; try discriminate.
+  - destruct (m_plus_wins p h); discriminate.
+  - rewrite line_bad_split. rewrite (hfail_none Hh EH j Hj), (pfail_none EP j Hj). reflexivity.
+Qed.
+
+(* a rejected buffer: the reported line offends, and no earlier line of the buffer does *)
+Lemma validate_first size j :
+  validate n hdr plus (nl_pos data) data size (count_nl data) = CutFormat j ->
+  j < count_nl data
+  /\ (hdr <> 0%Z -> line_bad n hdr plus j (nth j (lines data) []) = true)
+  /\ (hdr <> 10%Z -> forall i, i < j -> line_bad n hdr plus i (nth i (lines data) []) = false).
+Proof.
+  intros H. unfold validate in H.
+  destruct (m_plus_fail n plus (nl_pos data) data (count_nl data)) as [p|] eqn:EP;
+    destruct (m_header_fail n hdr (nl_pos data) data (count_nl data)) as [h|] eqn:EH;
+    cbn [m_first_fail] in H; try discriminate.
+  - destruct (pfail_some p EP) as (Hp1 & Hp2 & Hp3). destruct (hfail_some h EH) as (Hh1 & Hh2 & Hh3).
+    unfold m_plus_wins in H. destruct (Nat.ltb_spec p h) as [Hlt|Hle]; injection H as <-.
+    + split; [exact Hp1|]. split.
+      * intros _. rewrite line_bad_split, Hp2. apply orb_true_r.
+      * intros Hh i Hi. rewrite line_bad_split, (Hh3 Hh i ltac:(lia)), (Hp3 i Hi). reflexivity.
+    + split; [exact Hh1|]. split.
+      * intros Hh. rewrite line_bad_split, (Hh2 Hh). reflexivity.
+      * intros Hh i Hi. rewrite line_bad_split, (Hh3 Hh i Hi), (Hp3 i ltac:(lia)). reflexivity.
+  - injection H as <-. destruct (pfail_some p EP) as (Hp1 & Hp2 & Hp3).
+    split; [exact Hp1|]. split.
+    + intros _. rewrite line_bad_split, Hp2. apply orb_true_r.
+    + intros Hh i Hi. rewrite line_bad_split, (hfail_none Hh EH i ltac:(lia)), (Hp3 i Hi). reflexivity.
+  - injection H as <-. destruct (hfail_some h EH) as (Hh1 & Hh2 & Hh3).
+    split; [exact Hh1|]. split.
+    + intros Hh. rewrite line_bad_split, (Hh2 Hh). reflexivity.
+    + intros Hh i Hi. rewrite line_bad_split, (Hh3 Hh i Hi), (pfail_none EP i ltac:(lia)). reflexivity.
 Qed.
 
 Lemma validate_bad size j : hdr <> 0%Z ->
   validate n hdr plus (nl_pos data) data size (count_nl data) = CutFormat j ->
   j < count_nl data /\ line_bad n hdr plus j (nth j (lines data) []) = true.
 Proof.
-  intros Hh H. unfold validate in H.
-  destruct (nthZ data 0 =? hdr)%Z eqn:E0; cbn [negb] in H.
-  - cbv zeta in H.
-    destruct (find_first_bad (fun p => (nthZ data p =? hdr)%Z) _ 0) as [i|] eqn:E1.
-    + (* a later record does not start with the marker *)
-      injection H as <-.
-      destruct (ffb_some _ _ (0 + 1)%Z 0 i E1) as (_ & Hi & Ht). rewrite Nat.sub_0_r in Hi, Ht.
-      rewrite map_length in Hi.
-      destruct (strided_bound _ _ _ _ _ Hn Hi) as [Hb1 Hb2].
-      destruct (strided_nth (nl_pos data) (n - 1) n (count_nl data - 1) i 0%Z Hn Hb1 Hb2) as [_ Hq2].
-      rewrite (map_nth (fun p => (p + 1)%Z)) in Ht. rewrite Hq2 in Ht.
-      assert (Hj : (i + 1) * n < count_nl data) by nia.
-      split; [exact Hj|].
-      pose proof (line_start_byte _ data Hj) as HB.
-      replace ((i + 1) * n) with (S (n - 1 + i * n)) in HB at 1 by nia.
-      cbn [line_start] in HB.
-      unfold line_bad. apply orb_true_iff. left.
-      rewrite Nat.mod_mul by lia. cbn [Nat.eqb andb]. apply negb_true_iff. apply Z.eqb_neq.
-      apply first_byte_neq; [exact Hh|]. rewrite <- HB. apply Z.eqb_neq. exact Ht.
-    + destruct plus eqn:Epl; [|discriminate].
-      pose proof (Hp eq_refl) as Hn3.
-      destruct (find_first_bad (fun p => (nthZ data p =? 43)%Z) _ 0) as [i|] eqn:E2; [|discriminate].
-      injection H as <-.
-      destruct (ffb_some _ _ (0 + 1)%Z 0 i E2) as (_ & Hi & Ht). rewrite Nat.sub_0_r in Hi, Ht.
-      rewrite map_length in Hi.
-      destruct (strided_bound _ _ _ _ _ Hn Hi) as [Hb1 Hb2].
-      destruct (strided_nth (nl_pos data) 1 n (count_nl data) i 0%Z Hn Hb1 Hb2) as [_ Hq2].
-      rewrite (map_nth (fun p => (p + 1)%Z)) in Ht. rewrite Hq2 in Ht.
-      assert (Hj : 2 + i * n < count_nl data).
-      { pose proof Hmod as Hmod'. apply Nat.mod_divides in Hmod'; [|lia]. destruct Hmod' as [c Hc].
-        assert (Hic : i < c) by nia.
-        assert (Hle : n * (i + 1) <= n * c) by (apply Nat.mul_le_mono_l; lia). nia. }
-      split; [exact Hj|].
-      pose proof (line_start_byte _ data Hj) as HB.
-      replace (2 + i * n) with (S (1 + i * n)) in HB at 1 by lia.
-      cbn [line_start] in HB.
-      assert (Hjm : forall x, x = 2 + i * n -> x mod n = 2).
-      { intros x ->. rewrite Nat.mod_add by lia. apply Nat.mod_small. lia. }
-      unfold line_bad. apply orb_true_iff. right.
-      rewrite (Hjm (S (S (i * n))) eq_refl). cbn [Nat.eqb andb].
-      apply negb_true_iff. apply Z.eqb_neq.
-      apply first_byte_neq; [lia|]. intros Hfb. apply Z.eqb_neq in Ht. apply Ht. rewrite HB. exact Hfb.
-  - (* the first byte of the buffer is not the marker *)
-    injection H as <-. assert (Hj : 0 < count_nl data) by lia. split; [exact Hj|].
-    pose proof (line_start_byte 0 data Hj) as HB. cbn [line_start] in HB.
-    unfold line_bad. apply orb_true_iff. left.
-    rewrite Nat.mod_0_l by lia. cbn [Nat.eqb andb]. apply negb_true_iff. apply Z.eqb_neq.
-    apply first_byte_neq; [exact Hh|]. rewrite <- HB. apply Z.eqb_neq. exact E0.
+  intros Hh H. destruct (validate_first size j H) as (H1 & H2 & _). split; [exact H1|exact (H2 Hh)].
 Qed.
 End Validate.
 
@@ -879,11 +996,13 @@ Example marker_0_counterexample :
   read_chunks true (OneLine 1 0 false) Seek 5 [10%Z] = FormatError 0 []
   /\ spec_oneline (OneLine 1 0 false) (norm_text [10%Z]) = None.
 Proof. split; vm_compute; reflexivity. Qed.
-(* why a single offending line is assumed: all markers are checked before any '+' line, so with a bad '+'
-   in record 0 and a bad marker in record 1 a large buffer reports line 4, small buffers and the spec line 2 *)
-Example two_violations_counterexample :
+(* with several offending lines: since the repair of FastQBuffer._validate (a '+' violation that precedes the
+   first marker violation is raised first) large and small buffers report the same, first, offending line —
+   Proofs/C15_first.v proves this for every text; the order before the repair reported line 4 for the large
+   buffer (C15_first.pinned_order_refuted) *)
+Example two_violations_example :
   let file := [64;97;10;65;67;10;45;10;73;73;10; 88;98;10;65;67;10;43;10;73;73;10]%Z in
-  read_chunks true FastQ Seek 100 file = FormatError 4 []
+  read_chunks true FastQ Seek 100 file = FormatError 2 []
   /\ read_chunks true FastQ Seek 12 file = FormatError 2 []
   /\ spec_oneline FastQ (norm_text file) = Some 2.
 Proof. repeat split; vm_compute; reflexivity. Qed.
